@@ -76,6 +76,8 @@ func (e *Env) specSort(ty string) (Sort, types.Type) {
 	case "real":
 		e.c.usesReal = true
 		return SReal, nil
+	case "string":
+		return SStr, types.Typ[types.String]
 	}
 	t := e.lookupType(ty)
 	if t == nil {
